@@ -193,6 +193,10 @@ def cases(rng, tier):
         for label, bad in corruptions(v):
             item = {"field": "anyf", "label": f"xsi:{tname}/" + label, "values": {}, "anyf": [tname, bad]}
             (first if tname in ("hexBinary", "base64Binary") and not bad.isascii() else rest).append(item)
+    # JSON only: a value of another JSON type where the typed string is expected
+    for n, k, v in FIELDS:
+        for raw in (5, True, 1.5, None, [], {}, [1], [None], {"a": 1}, 10 ** 30):
+            rest.append({"field": n, "label": "jsonraw:" + json.dumps(raw), "values": {}, "raw": {n: raw}})
     rng.shuffle(first)
     rng.shuffle(rest)
     if tier == "quick":
@@ -200,7 +204,7 @@ def cases(rng, tier):
     yield {"field": "-", "label": "valid", "values": valid, "entry": "xml-native", "strict": False}
     yield {"field": "-", "label": "valid", "values": valid, "entry": "json", "strict": True}
     for item in first + rest:
-        entries = ["xml-native", "xml-lxml"] if "anyf" in item else ["xml-native", "xml-lxml", "json", "dict"]
+        entries = ["xml-native", "xml-lxml"] if "anyf" in item else (["json", "dict"] if "raw" in item else ["xml-native", "xml-lxml", "json", "dict"])
         for entry in entries:
             yield {**item, "entry": entry, "strict": rng.random() < 0.5}
 
@@ -225,7 +229,7 @@ def run(a):
             data = xml_doc(a["values"], anyf)
             h = XmlEventHandler if entry == "xml-native" else LxmlEventHandler
             return XmlParser(context=ctx, config=cfg, handler=h).from_bytes(data, Rich)
-        js = json_doc(a["values"])
+        js = json.dumps(a["raw"]) if a.get("raw") is not None else json_doc(a["values"])
         if entry == "json":
             return JsonParser(context=ctx, config=cfg).from_bytes(js.encode("utf-8"), Rich)
         return DictDecoder(context=ctx, config=cfg).decode(json.loads(js), Rich)
